@@ -752,5 +752,23 @@ def replay(path):
             print("average_port_pressure ->", mm.average_port_pressure(pp))
         except Exception as ex:
             print("average_port_pressure raises", pc.exc_text(ex))
+    if case.get("kind") == "pipeline":
+        # whole-pipeline witness: the recorded lines through the CLI entry point again
+        import warnings
+
+        env.warm_models([case["arch"]])
+        wd = os.path.join(tlc.WORK, "scratch")
+        os.makedirs(wd, exist_ok=True)
+        text = "".join("\t" + l.strip() + "\n" for l in case["lines"])
+        print("osaca --arch %s %s on:\n%s" % (case["arch"], " ".join(case["opts"]), text))
+        try:
+            with warnings.catch_warnings():
+                warnings.simplefilter("ignore")
+                _cli_analyse(case["arch"], text, case["opts"], wd)
+        except Exception as ex:  # noqa
+            print("reproduced: raises %s at %s" % (pc.exc_text(ex), pc.exc_where(ex)))
+            return 1
+        print("not reproduced: the analysis completes")
+        return 0
     print(json.dumps(case, indent=1)[:2000])
     return 0
